@@ -40,6 +40,8 @@ package transport
 //@   requires[C10] t != nil && t.ChunkedReader != nil
 //@   assigns *
 //@   ensures[C08] chunk: err == nil ==> n == len(p) && 0 <= n && n <= 4096
+// bytes taken from the body are never returned together with an error (the caller drops what comes with an error)
+//@   ensures[C06,C08] noDataWithError: err != nil ==> n == 0
 //@   nopanic[C10]
 
 //@ func (*WSPKT).ReadPacket
